@@ -25,7 +25,12 @@ History = the same caller-side objects used for several calculations (section "h
          between; after every call the caller's objects must be what they were, and every call whose meaning the
          statement fixes is judged by (1)-(4) for the density and table of THAT call.
 Beam    = wavelength= and energy= (quick and thorough); a call with energy=E must also equal the same call with the
-         equivalent wavelength= (own conversion), grid points and match point.
+         equivalent wavelength= (own conversion), grid points and match point.  energy=E TOGETHER WITH wavelength=w in
+         one call (w the wavelength of E, or another one): neutron_sld documents 'If energy is specified then wavelength
+         is ignored', so the call is judged by (1)-(4) for the beam of E - every compound, form, molecule and grid
+         point, the match point, and as calls of the histories.
+Positional = D2O_sld(compound, v, d, ...) - the two fractions by position in the documented order - at every grid point
+         of the first and the last probe of every item must give what the keywords give.
 Construction histories = fasta.Molecule(name, X, cell_volume=V | density=d) with X an object somebody else owns (a
          Formula the caller parsed, with or without its own density; an atom dictionary; text; the labile_formula of
          an earlier molecule, of every table entry, of a Sequence): two constructions from the same object with
@@ -63,7 +68,12 @@ META = dict(
           "unsubstituted - a documented TODO - and are executed as history only).  Every fasta molecule is judged "
           "a second time after five keyword-carrying calls on its labile_formula (an object shared by all users "
           "of the table).  A history is non-trivial when the compound has labile hydrogen.  BEAM: every grid point and "
-          "match point computed with energy= is also computed with the equivalent wavelength= and the two must agree.  "
+          "match point computed with energy= is also computed with the equivalent wavelength= and the two must agree; "
+          "probes ('both', E, w) pass energy=E and wavelength=w in ONE call (w = the wavelength of E | other wavelengths "
+          "on either side) and are judged for the beam of E (documented precedence), after the energy-only probe of the "
+          "same E so that a violation is named after the combination; the histories contain the combined call alone and "
+          "before / after the default, wavelength= and energy= calls.  POSITIONAL: the grid points of the first and the last "
+          "probe of every item are also computed as D2O_sld(compound, v, d, ...).  "
           "CONSTRUCTION HISTORIES: (argument kind: Formula | Formula with own density | atom dictionary | text) x "
           "(cell_volume a | b | natural density a | b) for the first molecule x (same object | first.labile_formula) x "
           "the same four for the second; after each construction the argument is compared with its state before, the "
@@ -71,20 +81,22 @@ META = dict(
           "again and judged again; every table molecule and 3 Sequences: two variants derived from .labile_formula, "
           "then the existing molecule read and judged again"),
     bound=dict(
-        quick="9 compounds (one with an energy-dependent absorber) x 3 input forms + all 99 molecules of the 8 fasta tables; D2O fraction "
-              "{0, 0.08, 0.25, 0.5, 1} x volume fraction {0, 0.3, 1} x {wavelength 1.798, 6 A, energy 5 meV (+ its equivalent wavelength)}; match point per "
+        quick="13 compounds (three with an energy-dependent scatterer: Gd, Sm, Eu) x 3 input forms + all 99 molecules of the 8 fasta tables; D2O fraction "
+              "{0, 0.08, 0.25, 0.5, 1} x volume fraction {0, 0.3, 1} x {wavelength 1.798, 6 A, energy 5 meV (+ its equivalent wavelength), "
+              "energy 5 meV together with wavelength 4.04 (its own) | 1.798 | 12 A}; fractions by position at the first and last probe; match point per "
               "compound x wavelength re-evaluated at volume fraction {0, 0.3, 1}.  Histories: 4 compounds (natural / "
               "isotopic density, D present, energy-dependent absorber) x [36 first calls x 24 judged second calls at "
               "the default beam (+ the two caller-update variants - 'f.density = x' and 'f = 2*f; f.density = x' - where the second call uses the object's own "
-              "density) + 7 beam-only-differing histories (default / wavelength= / energy=) per judged call] = 1320 histories "
-              "each, 96 calls alone; 99 molecules x 5 keyword calls + re-judgement; construction histories: 4 compounds x "
+              "density) + 13 beam-only-differing histories (default / wavelength= / energy= / energy= with wavelength=) per judged call] = 1464 histories "
+              "each, 120 calls alone; 99 molecules x 5 keyword calls + re-judgement; construction histories: 4 compounds x "
               "4 argument kinds x 4 x 2 x 4 = 512 two-molecule histories, 99 table molecules + 3 Sequences x 2 derived "
               "variants",
-        thorough="12 compounds (adds nested groups, a hydrogen-free salt) x 3 input "
+        thorough="16 compounds (adds nested groups, a hydrogen-free salt) x 3 input "
                  "forms + all 99 molecules; D2O fraction {0, 0.04, 0.08, 0.25, 0.5, 0.75, 1} x volume fraction "
-                 "{0, 0.1, 0.3, 0.5, 0.9, 1} x {wavelength 0.5, 1.798, 6, 12 A, energy 5 meV}; match points as in quick.  "
-                 "Histories: all 14 compounds x [54 first calls x 36 judged second calls + variants] = 2844 histories "
-                 "each (7 beam-only-differing ones per judged call included), 150 calls alone; molecules and "
+                 "{0, 0.1, 0.3, 0.5, 0.9, 1} x {wavelength 0.5, 1.798, 6, 12 A, energy 5 meV, energy 5 meV together with "
+                 "wavelength 4.04 (its own) | 0.5 | 1.798 | 12 A}; match points as in quick.  "
+                 "Histories: all 16 compounds x [54 first calls x 36 judged second calls + variants] = 3060 histories "
+                 "each (13 beam-only-differing ones per judged call included), 186 calls alone; molecules and "
                  "construction histories as in quick"),
     assumptions=[
         "atom masses and scattering lengths are the library's tables (C06/C07); the expected SLD of the substituted "
@@ -123,6 +135,15 @@ META = dict(
         "of the table shares",
         "Molecule values are compared with the cell volume the Molecule reports (tables give cell volumes); "
         "empty molecules (gap, masked) have volume 0, density 0 and SLD 0",
+        "keywords in combination: D2O_sld / D2O_match say '*wavelength* or *energy* select neutron wavelength or energy' "
+        "and compute through neutron_sld, whose documentation fixes the precedence ('If energy is specified then "
+        "wavelength is ignored'): energy= with wavelength= means the beam of the energy, and the reference is neutron_sld "
+        "of the substituted compound with energy= alone.  Scalars only (the docstrings describe float beams; vectors are "
+        "C03's).  density= together with natural_density= is NOT judged: no docstring (D2O_sld, D2O_match, formula) says "
+        "which of the two wins",
+        "positional passing: compound, volume_fraction, D2O_fraction of nsf.D2O_sld are described in that order and "
+        "accepted by position; everything else travels in **kw and has no position.  Molecule.D2Osld documents no "
+        "parameters and is called with keywords only",
     ],
     level_text="every member of the stated finite grid was executed on the real D2O_sld / D2O_match / Molecule "
                "code and compared with the direct-substitution reference; the identities are polynomial "
@@ -154,6 +175,10 @@ COMPOUNDS = [
     # tritium is an isotope like any other: only the atoms written H[1] are labile
     ("T2O@1.21", "T2O", [("T", 2), ("O", 1)], "iso", 1.21),
     ("C3H3T3H[1]2NO2@1.4n", "C3H3T3H[1]2NO2", [("C", 3), ("H", 3), ("T", 3), ("H[1]", 2), ("N", 1), ("O", 2)], "nat", 1.4),
+    # more energy-dependent scatterers (the compounds for which the beam matters at all): without labile hydrogen, and
+    # with labile hydrogen at a natural density
+    ("Sm2O3@8.35", "Sm2O3", [("Sm", 2), ("O", 3)], "iso", 8.35),
+    ("EuC6H9H[1]6O9@1.9n", "EuC6H9H[1]6O9", [("Eu", 1), ("C", 6), ("H", 9), ("H[1]", 6), ("O", 9)], "nat", 1.9),
 ]
 COMPOUNDS_THOROUGH = COMPOUNDS + [
     ("C2(H[1]2O)3@1.1", "C2(H[1]2O)3", [("C", 2), ("H[1]", 6), ("O", 3)], "iso", 1.1),
@@ -165,13 +190,25 @@ TABLES = ("AMINO_ACID_CODES", "NUCLEIC_ACID_COMPONENTS", "CARBOHYDRATE_RESIDUES"
           "RNA_BASES", "DNA_BASES", "RNA_CODES", "DNA_CODES")
 CANONICAL = 0       # index of the hydrogen-free compound used to measure the solvent
 
+# ('both', E, w): energy=E AND wavelength=w in one call; w 'same' = the wavelength of E (own conversion).  They come
+# after the energy-only probe of the same energy, so that a violation is named after the combination.
 GRID = dict(
     quick=dict(d=(0, 0.08, 0.25, 0.5, 1), v=(0, 0.3, 1),
-               probes=(("wavelength", 1.798), ("wavelength", 6), ("energy", 5.0))),
+               probes=(("wavelength", 1.798), ("wavelength", 6), ("energy", 5.0),
+                       ("both", 5.0, "same"), ("both", 5.0, 1.798), ("both", 5.0, 12))),
     thorough=dict(d=(0, 0.04, 0.08, 0.25, 0.5, 0.75, 1), v=(0, 0.1, 0.3, 0.5, 0.9, 1),
                   probes=(("wavelength", 0.5), ("wavelength", 1.798), ("wavelength", 6), ("wavelength", 12),
-                          ("energy", 5.0))),
+                          ("energy", 5.0),
+                          ("both", 5.0, "same"), ("both", 5.0, 0.5), ("both", 5.0, 1.798), ("both", 5.0, 12))),
 )
+
+
+def grid_for(tier):
+    """the grid of a tier with the 'same' wavelengths of the combined probes worked out"""
+    g = dict(GRID[tier])
+    g["probes"] = tuple((p[0], p[1], wavelength_of_energy(p[1])) if p[0] == "both" and p[2] == "same" else p
+                        for p in g["probes"])
+    return g
 
 
 def compounds(tier):
@@ -226,8 +263,23 @@ class Env(object):
 
 
 def _kw(probe):
-    """Keyword of a probe; ('default', None) = neither wavelength nor energy is passed."""
-    return {} if probe[0] == "default" else {probe[0]: probe[1]}
+    """Keywords of a probe; ('default', None) = neither wavelength nor energy is passed; ('both', E, w) = energy=E
+    AND wavelength=w in the same call."""
+    if probe[0] == "default":
+        return {}
+    if probe[0] == "both":
+        return {"energy": probe[1], "wavelength": probe[2]}
+    return {probe[0]: probe[1]}
+
+
+def _beam(probe):
+    """The beam a probe means.  neutron_sld / neutron_scattering document 'If energy is specified then wavelength is
+    ignored': energy= together with wavelength= is the beam of that energy."""
+    return ("energy", probe[1]) if probe[0] == "both" else tuple(probe)
+
+
+def _kwsrc_probe(probe):
+    return ", ".join("%s=%r" % kv for kv in sorted(_kw(probe).items()))
 
 
 def _pair(x):
@@ -269,6 +321,7 @@ class Item(object):
                 name = "density" if dkind == "iso" else "natural_density"
                 self.arg, self.kw = text, {name: dval}
                 self.code = "%r, %s=%r" % (text, name, dval)
+                self.code_arg, self.code_kw = "%r" % text, ["%s=%r" % (name, dval)]
             elif form == "obj":
                 self.arg, self.kw = E.formula(label), {}
                 self.code = "formula(%r)" % label
@@ -299,7 +352,7 @@ class Item(object):
 class Ref(object):
     """Reference values for one item at one probe (wavelength / energy)."""
     def __init__(self, E, item, probe, acc, rho=None):
-        self.E, self.item, self.probe = E, item, probe
+        self.E, self.item, self.probe = E, item, _beam(probe)
         self.acc = acc
         self.rho = item.rho if rho is None else rho     # density of the compound as written, for this call
         self._direct = {}
@@ -353,6 +406,7 @@ def measure_solvent(E, acc, tier, probe):
     rho = E._solvent["rho"]
     if rho is None:
         return None
+    probe = _beam(probe)
     key = tuple(probe)
     if key not in E._solvent:
         out = {}
@@ -367,7 +421,7 @@ def measure_solvent(E, acc, tier, probe):
 def _snippet(E, item, probe, v, d, ref=None, match=False):
     lines = ["import periodictable as pt", "from periodictable import nsf, fasta, formula"]
     lines += list(getattr(item, "pre", []))
-    pk = "%s=%r" % (probe[0], probe[1])
+    pk = _kwsrc_probe(probe)
     if match:
         lines.append("d, sld = nsf.D2O_match(%s, %s)" % (item.code, pk))
         lines.append("print(d, sld, [nsf.D2O_sld(%s, volume_fraction=v, D2O_fraction=d, %s)[0] for v in (0, 0.3, 1)])"
@@ -377,8 +431,9 @@ def _snippet(E, item, probe, v, d, ref=None, match=False):
     if ref is not None:
         _, _, _, atoms, rho = ref.direct(d if not match else 0)
         ad = "{%s}" % ", ".join("%s: %r" % (E.pyname(a), n) for a, n in atoms.items())
-        lines.append("# the compound with its labile H substituted directly, same cell volume:")
-        lines.append("print(nsf.neutron_sld(%s, density=%r, %s))" % (ad, rho, pk))
+        lines.append("# the compound with its labile H substituted directly, same cell volume%s:"
+                     % (" (energy given: the wavelength is ignored)" if probe[0] == "both" else ""))
+        lines.append("print(nsf.neutron_sld(%s, density=%r, %s))" % (ad, rho, _kwsrc_probe(_beam(probe))))
     if item.molecule is not None:
         m = item.code.replace(".labile_formula", "")
         lines.append("m = %s; print(m.sld, m.Dsld, m.D2Omatch, m.D2Osld(%r, %r))" % (m, v, d))
@@ -389,10 +444,16 @@ def _mix_class(v):
     return "direct-substitution" if v == 1 else "solvent-mixture" if v == 0 else "volume-linear"
 
 
-def check_item_probe(E, acc, item, probe, grid, tier, judge_molecule):
+def check_item_probe(E, acc, item, probe, grid, tier, judge_molecule, positional=False):
     """All grid points, the match point and (once) the Molecule attributes of one item at one probe.
-    Returns False after the first violation (no exploration beyond a violating state)."""
+    Returns False after the first violation (no exploration beyond a violating state).
+    A probe ('both', E, w) passes energy=E and wavelength=w in the same call; the reference is the beam of the
+    energy (the caller runs the energy-only probe first and names violations after the combination).
+    positional: every grid point is also computed as D2O_sld(compound, v, d, ...) - the two fractions by position,
+    in the order the docstring gives them."""
     nsf = E.nsf
+    if probe[0] == "both":
+        acc = _Renamed(acc, "energy-and-wavelength-given:")
     solvent = measure_solvent(E, acc, tier, probe)
     if solvent is None:
         return False
@@ -440,6 +501,29 @@ def check_item_probe(E, acc, item, probe, grid, tier, judge_molecule):
                               standalone=_snippet(E, item, probe, v, d, ref))
                 return False
             acc.outcome("%s:%s:ok" % (rule, item.lclass))
+            if probe[0] == "both":
+                acc.outcome("energy-and-wavelength-given:%s:%s:ok" % (
+                    "same-beam" if _close_rel(wavelength_of_energy(probe[1]), probe[2]) else "other-wavelength", rule))
+            if positional:
+                acc.evaluations += 1
+                acc.transitions += 1
+                pcase = dict(case, positional=True)
+                snip_p = (_snippet(E, item, probe, v, d, ref) + "print(nsf.D2O_sld(%s))\n" % ", ".join(
+                    [getattr(item, "code_arg", item.code), repr(v), repr(d)] + list(getattr(item, "code_kw", []))
+                    + ([_kwsrc_probe(probe)] if probe[0] != "default" else [])))
+                try:
+                    pre_, pim_ = _pair(nsf.D2O_sld(item.arg, v, d, **kw))
+                except Exception as e:
+                    acc.violation("positional-fractions:D2O_sld:raises:%s" % type(e).__name__, pcase,
+                                  expected=[gre, gim], observed="%s: %s" % (type(e).__name__, e), standalone=snip_p)
+                    return False
+                if not _close_scaled(pre_, ere, esc) or not _close_rel(pim_, eim):
+                    acc.violation("positional-fractions:D2O_sld:differs-from-keywords", pcase, expected=[gre, gim],
+                                  observed=[pre_, pim_], standalone=snip_p,
+                                  detail="expected = D2O_sld(compound, volume_fraction=%r, D2O_fraction=%r), observed = "
+                                         "D2O_sld(compound, %r, %r)" % (v, d, v, d))
+                    return False
+                acc.outcome("positional-fractions:%s:ok" % ("distinguishing" if v != d else "v=d"))
             if probe[0] == "energy":
                 # the same beam given as a wavelength (own conversion h^2 / (2 m_n lambda^2)) is the same calculation
                 wl = wavelength_of_energy(probe[1])
@@ -727,7 +811,7 @@ class HistCheck(object):
         if tk == "T":
             kws.append("table=T")
         if probe[0] != "default":
-            kws.append("%s=%r" % (probe[0], probe[1]))
+            kws.append(_kwsrc_probe(probe))
         return "nsf.%s(%s)" % ("D2O_sld" if fn[0] == "sld" else "D2O_match", ", ".join([arg] + kws))
 
     def snippet(self, calls, update=None, rho=None):
@@ -751,7 +835,7 @@ class HistCheck(object):
             ad = "{%s}" % ", ".join("%s: %r" % (self.E.pyname(a), n) for a, n in atoms.items())
             lines.append("# the compound of the last call with its labile H substituted directly, same cell volume:")
             lines.append("print(nsf.neutron_sld(%s, density=%r%s))"
-                         % (ad, rr, "" if last[4][0] == "default" else ", %s=%r" % (last[4][0], last[4][1])))
+                         % (ad, rr, "" if last[4][0] == "default" else ", " + _kwsrc_probe(_beam(last[4]))))
         return "\n".join(lines) + "\n"
 
     def verdict(self, call, rho, got):
@@ -896,6 +980,7 @@ def _call_from_json(j):
 
 
 P0, P1, P2 = ("default", None), ("wavelength", 6), ("energy", 5.0)
+P3 = ("both", 5.0, 6)            # energy= and wavelength= in one call: the beam of P2 with the wavelength of P1 to ignore
 
 
 def hist_plan(tier):
@@ -918,10 +1003,12 @@ def hist_plan(tier):
     for b0 in seconds:
         b1 = b0[:4] + (P1,)
         b2 = b0[:4] + (P2,)
+        b3 = b0[:4] + (P3,)
         hist += [(b0, None, b1), (b1, None, b0), (b1, None, b1),
-                 (b0, None, b2), (b2, None, b0), (b1, None, b2), (b2, None, b1)]
+                 (b0, None, b2), (b2, None, b0), (b1, None, b2), (b2, None, b1),
+                 (b0, None, b3), (b3, None, b0), (b1, None, b3), (b3, None, b1), (b2, None, b3), (b3, None, b2)]
     alone = sorted(set(firsts) | set(seconds) | set(b[:4] + (P1,) for b in seconds)
-                   | set(b[:4] + (P2,) for b in seconds), key=repr)
+                   | set(b[:4] + (P2,) for b in seconds) | set(b[:4] + (P3,) for b in seconds), key=repr)
     return list(idxs), alone, hist
 
 
@@ -933,11 +1020,15 @@ def _alone_shard(args):
     acc = Acc()
     bad = []
     fine = set()
-    for call in sorted(alone, key=lambda c: (c[4] != P0, repr(c))):
-        # a call that is right with the default beam and wrong with the beam given: the cause is the beam keyword
+    for call in sorted(alone, key=lambda c: ((0 if c[4] == P0 else 2 if c[4][0] == "both" else 1), repr(c))):
+        # a call that is right with the default beam and wrong with the beam given: the cause is the beam keyword;
+        # right with energy= alone and wrong with energy= and wavelength= together: the cause is the combination
         sig = None
-        if call[4] != P0 and call[:4] + (P0,) in fine:
-            sig = "single-call:beam-given-as-%s" % call[4][0]
+        if call[4][0] == "both" and call[:4] + (("energy", call[4][1]),) in fine:
+            sig = "single-call:energy-and-wavelength-given"
+        elif call[4] != P0 and call[:4] + (P0,) in fine:
+            # (energy= alone already wrong: the combined call fails for the same reason)
+            sig = "single-call:beam-given-as-%s" % ("energy" if call[4][0] == "both" else call[4][0])
         def one(call=call, sig=sig):
             a = Acc()
             return HistCheck(Env(), a, idx, tier).single(call, sig), a
@@ -1306,7 +1397,7 @@ def _shard(args):
     descs, tier, first = args
     E = Env()
     acc = Acc()
-    grid = GRID[tier]
+    grid = grid_for(tier)
     for desc in descs:
         item = Item(E, desc, tier)
         acc.outcome("compound:%s:%s:%s" % (item.form if item.molecule is None else "molecule",
@@ -1314,10 +1405,12 @@ def _shard(args):
                                            if item.n_labile in (0, 1, 3) else "labile=n"))
         ok = True
         before = formula_state(item.arg) if item.form in ("obj", "molecule") else None
-        for probe in grid["probes"]:
+        for k, probe in enumerate(grid["probes"]):
             # Molecule attributes are defined at the default wavelength only: judge them at 1.798
             jm = item.molecule is not None and tuple(probe) == ("wavelength", 1.798)
-            ok = check_item_probe(E, acc, item, probe, grid, tier, jm)
+            # the fractions by position: once per item, and with energy= and wavelength= together
+            ok = check_item_probe(E, acc, item, probe, grid, tier, jm,
+                                  positional=(k == 0 or probe == grid["probes"][-1]))
             if not ok:
                 break
         if ok and before is not None:
@@ -1364,7 +1457,7 @@ def run(ctx):
     ctx.acc.info["histories_per_compound"] = len(hist)
     ctx.acc.traces = ctx.acc.transitions
     # every worker measured the same two solvent densities (merged by max): report them once
-    g = GRID[tier]
+    g = grid_for(tier)
     ctx.acc.info["grid"] = dict(d=list(g["d"]), v=list(g["v"]), probes=[list(p) for p in g["probes"]])
 
 
@@ -1400,8 +1493,8 @@ def replay(ctx, case, signature=None):
     if case.get("grid"):
         item = Item(E, desc, "thorough")
         before = formula_state(item.arg)
-        for probe in GRID["quick"]["probes"]:
-            if not check_item_probe(E, ctx.acc, item, probe, GRID["quick"], "thorough", False):
+        for probe in grid_for("quick")["probes"]:
+            if not check_item_probe(E, ctx.acc, item, probe, grid_for("quick"), "thorough", False):
                 return
         argument_intact(E, ctx.acc, item, before, "D2O_sld/D2O_match", "none", dict(item=list(desc), grid=True))
         return
@@ -1418,4 +1511,5 @@ def replay(ctx, case, signature=None):
     grid = dict(d=tuple(sorted(set(grid["d"]) | ({d} if d is not None else set()))),
                 v=tuple(sorted(set(grid["v"]) | ({v} if v is not None else set()))), probes=(probe,))
     check_item_probe(E, ctx.acc, item, probe, grid, tier,
-                     item.molecule is not None and probe == ("wavelength", 1.798))
+                     item.molecule is not None and probe == ("wavelength", 1.798),
+                     positional=bool(case.get("positional")))
